@@ -229,3 +229,70 @@ def run_meta(cls, cfg, model, clause):
 
 if __name__ == '__main__':
     run_meta(sys.argv[1], json.loads(sys.argv[2]), {}, 'self-test')
+
+
+def run_pointwise(cls, kinds, clause):
+    """Pointwise dtype table: operands of the given kinds; a rejected combination must raise ValueError/TypeError/AssertionError
+    before anything is announced; an accepted one must deliver the announced dtype."""
+    args = [arg('a%d' % i, [2], k) for i, k in enumerate(kinds)]
+    A = {'a%d' % i: numpy.ones(2).astype(DT[k]) for i, k in enumerate(kinds)}
+    try:
+        node = getattr(ev, cls)(*args)
+        announced = node.dtype
+        shape = node.shape
+    except (ValueError, TypeError, AssertionError) as e:
+        print('REPLAY: %s%r is rejected when announcing (%s): nothing delivered%s' % (cls, tuple(DT[k].__name__ for k in kinds), type(e).__name__,
+              ' -- VIOLATION-CONFIRMED: the contract expects this combination to be accepted' if clause.startswith('no-raise') else ''))
+        return
+    except Exception as e:
+        print('REPLAY: VIOLATION-CONFIRMED %s%r: announcing raised %s: %s' % (cls, tuple(DT[k].__name__ for k in kinds), type(e).__name__, e))
+        return
+    try:
+        value = numpy.asarray(ev.compile(node, _simplify=False, _optimize=False)(A))
+    except Exception as e:
+        print('REPLAY: VIOLATION-CONFIRMED %s%r announces dtype %s but evaluation raises %s: %s' % (cls, tuple(DT[k].__name__ for k in kinds), announced.__name__, type(e).__name__, str(e)[:150]))
+        return
+    kind = {'b': bool, 'i': int, 'u': int, 'f': float, 'c': complex}[value.dtype.kind]
+    if kind != announced or value.shape != (2,):
+        print('REPLAY: VIOLATION-CONFIRMED %s%r announces %s %r, delivers %s %r' % (cls, tuple(DT[k].__name__ for k in kinds), announced.__name__, tuple(map(int, shape)), value.dtype, value.shape))
+    else:
+        print('REPLAY: not reproduced: %s%r announces and delivers %s' % (cls, tuple(DT[k].__name__ for k in kinds), value.dtype))
+
+
+def run_arguments(what, clause):
+    """`arguments` / `isconstant` bookkeeping on a small family of REAL nodes (the symbolic sets of the contract do not map to one
+    input; the family covers every contract of part 3)."""
+    a, b = ev.Argument('a', (c(2),), float), ev.Argument('b', (c(2),), float)
+    i = ev.loop_index('_i', 3)
+    bad = []
+
+    def check(name, cond, *info):
+        if not cond:
+            bad.append((name, info))
+    try:
+        for node in (a + b, ev.Sum(a * b), ev.insertaxis(a, 0, c(3)), ev.constant(1.) + ev.Sum(a), ev.constant([1., 2.])):
+            want = frozenset().union(*(d.arguments for d in node.dependencies))
+            check('Evaluable.arguments is the union over the dependencies', node.arguments == want, str(node), sorted(map(str, node.arguments)))
+            check('isconstant <=> no arguments', node.isconstant == (not node.arguments), str(node))
+        check('arguments of a+b', (a + b).arguments == frozenset({a, b}))
+        check('Argument.arguments == {self}', a.arguments == frozenset({a}))
+        check('Argument is never constant', a.isconstant is False)
+        check('_LoopIndex.arguments == {self}', i.arguments == frozenset({i}))
+        body = ev.Take(a, ev.Mod(i, c(2)))
+        for loop in (ev.loop_sum(body, i), ev.loop_concatenate(ev.InsertAxis(body, c(1)), i)):
+            inner = frozenset().union(*(d.arguments for d in loop.dependencies))
+            check('the loop body depends on the index', i in inner, str(loop))
+            check('Loop.arguments removes exactly the loop index', loop.arguments == inner - {i} and i not in loop.arguments and a in loop.arguments, sorted(map(str, loop.arguments)))
+        j = ev.loop_index('_j', 3)
+        nested = ev.loop_sum(ev.loop_sum(ev.Take(a, ev.Mod(i + j, c(2))), i), j)
+        check('nested loops remove both indices and nothing else', nested.arguments == frozenset({a}), sorted(map(str, nested.arguments)))
+        other = ev.loop_sum(ev.Take(a, ev.Mod(j, c(2))) * ev.astype(ev.constant(1), float), i)
+        check('a loop does not remove the index of ANOTHER loop', j in other.arguments, sorted(map(str, other.arguments)))
+        w = ev.WithDerivative(ev.Sum(a), b, ev.zeros((c(2),), float))
+        check('WithDerivative.arguments adds the target', w.arguments == frozenset({a, b}), sorted(map(str, w.arguments)))
+    except Exception as e:
+        bad.append(('bookkeeping raised %s: %s' % (type(e).__name__, e), ()))
+    if bad:
+        print('REPLAY: VIOLATION-CONFIRMED (family of real nodes; the symbolic sets of the contract are not one input) clause %s: %s' % (clause, bad[:3]))
+    else:
+        print('REPLAY: not reproduced on the family of real nodes (clause %s)' % clause)
